@@ -379,6 +379,33 @@ func Run(cfg Config, setup func(s *Sched), body func()) *Sched {
 // (shims that recover handler panics must re-panic it).
 func IsAbort(r any) bool { _, ok := r.(abortT); return ok }
 
+// Choose enumerates a data nondeterminism with n alternatives (e.g. which of several
+// ready select cases fires): it is recorded as a scheduling decision without
+// preemption cost, so the explorer tries every alternative.
+func Choose(n int, label string) int {
+	t := Current()
+	if t == nil || n <= 1 {
+		return 0
+	}
+	s := t.s
+	p := Point{Running: t.Name, Label: "choose:" + label, Frozen: s.frozen}
+	for i := 0; i < n; i++ {
+		p.Enabled = append(p.Enabled, label+"#"+string(rune('0'+i)))
+	}
+	i := len(s.Points)
+	if i < len(s.prefix) {
+		p.Chosen = s.prefix[i]
+		if p.Chosen >= n {
+			s.fail("replay-divergence", "choice out of range at "+label)
+			s.abortAll(t)
+			panic(abortT{})
+		}
+	}
+	s.Points = append(s.Points, p)
+	t.Note(p.Enabled[p.Chosen])
+	return p.Chosen
+}
+
 // SetExplore switches the exploration of alternatives on or off for the scheduling
 // points that follow (harnesses freeze start-up and tear-down, which other checks explore).
 func SetExplore(on bool) {
